@@ -149,6 +149,53 @@ class GaussNonUniform(SimModel):
         return x_out
 
 
+class GaussConstrained(SimModel):
+    """Prior that is zero inside part of the box: uniform on {x0 + x1 < c}; the
+    likelihood peaks on the constraint, so rejected-by-prior draws are frequent."""
+
+    kind = "gauss_constrained"
+
+    def __init__(self, dims=2, bound=5.0, c=2.0):
+        super().__init__(dims=dims, bound=bound)
+        self.c = c
+
+    def log_prior(self, x):
+        ok = self.in_bounds(x) & ((x[self.names[0]] + x[self.names[1]]) < self.c)
+        return np.log(ok, dtype="float64") - self._logvol
+
+    def raw_log_likelihood(self, x):
+        d0 = x[self.names[0]] - 1.0
+        s = d0 * d0
+        for n in self.names[1:]:
+            d = x[n] - 1.0
+            s = s + d * d
+        return -0.5 * s
+
+
+class GaussSloppyPrior(SimModel):
+    """log_prior that does not check the bounds (finite everywhere): only nessai's own
+    bounds checks keep points inside the prior box."""
+
+    kind = "gauss_sloppy_prior"
+
+    def log_prior(self, x):
+        return np.zeros(np.size(x[self.names[0]]), dtype="float64") - self._logvol
+
+
+class GaussQuantised(SimModel):
+    """Likelihood quantised to multiples of 1/8 (exact in binary): ties between
+    live points are frequent, so '>' versus '>=' matters, but there is no
+    infinite plateau."""
+
+    kind = "gauss_quantised"
+
+    def raw_log_likelihood(self, x):
+        raw = SimModel.raw_log_likelihood(self, x)
+        # quantised away from the peak only: a plateau at the maximum could never be left by
+        # strict replacement (a limitation of nested sampling itself, not a property of nessai)
+        return np.where(raw < -1.0, np.floor(raw * 8.0) / 8.0, raw)
+
+
 class GaussScalar(SimModel):
     """Likelihood that only accepts one point at a time (non-vectorised path)."""
 
@@ -211,6 +258,9 @@ ZOO = {
     "gauss": Gauss,
     "gauss_nonuniform": GaussNonUniform,
     "gauss_scalar": GaussScalar,
+    "gauss_constrained": GaussConstrained,
+    "gauss_quantised": GaussQuantised,
+    "gauss_sloppy_prior": GaussSloppyPrior,
     "gauss_analytic": GaussAnalytic,
     "gauss_gw": GaussGW,
 }
